@@ -990,6 +990,23 @@ class ManifestRecursiveLoader:
                         if not ret and diff[0][0] == '__type__':
                             raise ManifestIncompatibleEntry(
                                 out[fullpath][1], e, diff)
+                        if (e.tag == 'MANIFEST'
+                                and out[fullpath][1].tag != 'MANIFEST'):
+                            # the sub-Manifest must stay linked, so
+                            # keep the MANIFEST entry and drop
+                            # the other one instead
+                            ompath, oe = out[fullpath]
+                            e.checksums = dict(oe.checksums,
+                                               **e.checksums)
+                            if ompath == mpath:
+                                entries_to_remove.append(oe)
+                            else:
+                                (self.loaded_manifests[ompath]
+                                 .entries.remove(oe))
+                                self.updated_manifests.add(ompath)
+                            out[fullpath] = (mpath, e)
+                            self.updated_manifests.add(mpath)
+                            continue
                         # otherwise, make sure we have all checksums
                         if e.tag != 'IGNORE':
                             out[fullpath][1].checksums.update(
